@@ -2,7 +2,10 @@
 //! /repo's working tree and prints canonical transcripts.
 //!
 //! usage: specs-harness world <histories-file>      (one history per line, integers)
+//!        specs-harness conc <cases-file>           (lock-step interleavings, see conc.rs)
+//!        specs-harness conc-stress <file>          (real threads, predicate only)
 //! output: one line per history, the outputs of the ops separated by " | ".
+mod conc;
 mod world_exec;
 
 use std::io::{BufRead, Write};
@@ -26,6 +29,8 @@ fn main() {
             .collect();
         let tr = match args[1].as_str() {
             "world" => world_exec::run_history(&ints),
+            "conc" => conc::run_case(&ints),
+            "conc-stress" => conc::run_stress(&ints),
             d => panic!("unknown domain {}", d),
         };
         let parts: Vec<String> = tr
